@@ -85,6 +85,12 @@ class UidHashVertex(Vertex):
         return hash(self.uid)
 
 
+class SlotVertex(Vertex):
+    """A subclass that keeps one attribute in a __slots__ slot (it still has a __dict__ from Vertex)."""
+
+    __slots__ = ("tag",)
+
+
 class HotVertex(Vertex):
     """Neighbor caching switched on for this subclass only (the program-wide flag may be off)."""
 
@@ -184,7 +190,7 @@ KIND = {
 }
 VERTEX_CLASSES = [Vertex, SubVertex, FalsyVertex, EmptyLenVertex, MixedVertex, SubVertexTwin, ViewVertex, HotVertex, StrVertex, Universe]
 # classes usable in histories (importable: histories are pickled; insertion-ordered `links`)
-WORLD_VERTEX_CLASSES = [Vertex, SubVertex, FalsyVertex, EmptyLenVertex, MixedVertex, UidHashVertex]
+WORLD_VERTEX_CLASSES = [Vertex, SubVertex, FalsyVertex, EmptyLenVertex, MixedVertex, UidHashVertex, SlotVertex]
 
 
 def kind_of(link):
